@@ -1,2 +1,14 @@
 """misc_model (library models)"""
 from . import LIB
+from . import ext_tabular  # noqa: E402,F401  (C14: nested python lists, fori_loop)
+from . import ext_symlist  # noqa: E402,F401  (C20: python lists of symbolic length)
+from . import ext_logging  # noqa: E402,F401  (C20: os.path, orbax checkpointer stub, tqdm.write)
+from . import ext_numeric  # noqa: E402,F401  (C18: named finite-sum lemma rules)
+from . import ext_spaces  # noqa: E402,F401  (C10: gymnasium.spaces.Box)
+from . import ext_cem  # noqa: E402,F401  (C10/C16: broadcast_to, lax.top_k sort model, nnx.Variable.value)
+from . import ext_policy_stub  # noqa: E402,F401  (C12: stochastic policy stub, flat value net, sum_affine rule)
+from . import ext_tfp  # noqa: E402,F401  (C13: tensorflow_probability Normal / MultivariateNormalDiag / Categorical closed forms)
+from . import ext_returns  # noqa: E402,F401  (C07: lax.scan fold, induction schema, reversed()/for over lists of symbolic length)
+from . import ext_cmaes  # noqa: E402,F401  (C16: argsort, linalg.norm, log1p, param-tree leaves, sum proof rules)
+from . import ext_ensemble  # noqa: E402,F401  (C17: stacked nnx modules / vmap over modules, split-tree.map-merge, random choice/permutation, nnx.scan)
+from . import ext_losses  # noqa: E402,F401  (C03: row-wise map stub, exact nnx.scan unrolling for concrete lengths) - keep after ext_ensemble
